@@ -10,6 +10,7 @@ import (
 	"path/filepath"
 	"regexp"
 	"runtime"
+	"runtime/pprof"
 	"sort"
 	"strings"
 	"sync"
@@ -66,6 +67,7 @@ type CaseResult struct {
 	MaxUnwind  int
 	NNondet    int
 	ObsPred    map[string][]ObsVal
+	Portfolio  PortfolioStats
 }
 
 type ObsVal struct {
@@ -162,6 +164,7 @@ func runCase(ld *Loaded, c Case, known map[string]bool, timeoutMs int, defSolver
 		return
 	}
 	defer solver.Close()
+	solver.hardLimit = time.Duration(timeoutMs)*time.Millisecond*3/2 + 5*time.Second
 	if os.Getenv("VP_SMTLOG") != "" {
 		f, _ := os.Create(fmt.Sprintf("%s/%s_%v.smt2", os.Getenv("VP_SMTLOG"), c.Harness, c.Args))
 		solver.log = f
@@ -176,6 +179,20 @@ func runCase(ld *Loaded, c Case, known map[string]bool, timeoutMs int, defSolver
 	}
 	if v, ok := c.Opts["alloc"]; ok {
 		ex.Kalloc = v
+	}
+	ex.primaryMs = 3000
+	if v, ok := c.Opts["primaryms"]; ok {
+		ex.primaryMs = v
+	}
+	ex.vcTimeout = time.Duration(timeoutMs) * time.Millisecond
+	ex.noPortfolio = sname != "z3" || os.Getenv("VP_NOPORTFOLIO") != ""
+	ex.feasBranches = true
+	ex.feasMs = 2000
+	if v, ok := c.Opts["feasms"]; ok {
+		ex.feasMs = v
+	}
+	if v, ok := c.Opts["nofeas"]; ok && v != 0 {
+		ex.feasBranches = false
 	}
 	if v, ok := c.Opts["fmtmethods"]; ok && v != 0 {
 		ex.fmtCallsMethods = true
@@ -203,8 +220,9 @@ func runCase(ld *Loaded, c Case, known map[string]bool, timeoutMs int, defSolver
 		for f := range ex.stubsSeen {
 			res.Stubs = append(res.Stubs, f)
 		}
-		res.SolverTime = solver.Time.Seconds()
-		res.Queries = solver.Queries
+		res.SolverTime = solver.Time.Seconds() + ex.pstats.Time.Seconds()
+		res.Queries = solver.Queries + ex.pstats.Runs
+		res.Portfolio = ex.pstats
 		res.Wall = time.Since(t0).Seconds()
 		res.MaxUnwind = ex.maxUnwind
 		res.NNondet = len(ex.nondets)
@@ -381,7 +399,20 @@ func main() {
 	replayFile := flag.String("replay", "", "replay a counterexample file natively")
 	verbose := flag.Bool("v", false, "verbose")
 	noNative := flag.Bool("nonative", false, "skip native replays (debugging only; violations are then unconfirmed)")
+	cpuprof := flag.String("cpuprofile", "", "write cpu profile")
 	flag.Parse()
+	if *cpuprof != "" {
+		f, _ := os.Create(*cpuprof)
+		pprof.StartCPUProfile(f)
+		defer pprof.StopCPUProfile()
+		go func() {
+			time.Sleep(120 * time.Second)
+			pprof.StopCPUProfile()
+			f.Close()
+			fmt.Println("profile written")
+			os.Exit(3)
+		}()
+	}
 
 	if *replayFile != "" {
 		b, err := os.ReadFile(*replayFile)
